@@ -335,34 +335,52 @@ func CheckFrozen(label string) {
 
 // Disjoint: no pointer target, non-empty slice backing array or Go map reachable from both values.
 func Disjoint(a, b any) bool {
-	sa, sb := map[uintptr]bool{}, map[uintptr]bool{}
+	sa, sb := &memSet{seen: map[uintptr]bool{}}, &memSet{seen: map[uintptr]bool{}}
 	collect(reflect.ValueOf(a), sa, 0)
 	collect(reflect.ValueOf(b), sb, 0)
-	for p := range sa {
-		if sb[p] {
-			return false
+	for _, x := range sa.iv {
+		for _, y := range sb.iv {
+			if x.lo < y.hi && y.lo < x.hi {
+				return false
+			}
 		}
 	}
 	return true
 }
 
-func collect(v reflect.Value, set map[uintptr]bool, d int) {
+// memSet: the mutable memory reachable from a value as address intervals - a pointer target, a slice's whole
+// capacity range (so two windows of one backing array overlap whatever their offsets), a map header
+type memIv struct{ lo, hi uintptr }
+
+type memSet struct {
+	seen map[uintptr]bool
+	iv   []memIv
+}
+
+func (m *memSet) add(p, size uintptr) {
+	if size == 0 {
+		size = 1
+	}
+	m.iv = append(m.iv, memIv{p, p + size})
+}
+
+func collect(v reflect.Value, set *memSet, d int) {
 	if !v.IsValid() || d > 50 {
 		return
 	}
 	switch v.Kind() {
 	case reflect.Ptr:
-		if v.IsNil() || set[v.Pointer()] {
+		if v.IsNil() || set.seen[v.Pointer()] {
 			return
 		}
-		set[v.Pointer()] = true
+		set.seen[v.Pointer()] = true
+		set.add(v.Pointer(), v.Type().Elem().Size())
 		collect(v.Elem(), set, d+1)
 	case reflect.Slice:
 		if v.IsNil() || v.Cap() == 0 {
 			return
 		}
-		full := v.Slice3(0, v.Cap(), v.Cap())
-		set[full.Pointer()] = true
+		set.add(v.Pointer(), uintptr(v.Cap())*v.Type().Elem().Size())
 		for i := 0; i < v.Len(); i++ {
 			collect(v.Index(i), set, d+1)
 		}
@@ -370,7 +388,7 @@ func collect(v reflect.Value, set map[uintptr]bool, d int) {
 		if v.IsNil() {
 			return
 		}
-		set[v.Pointer()] = true
+		set.add(v.Pointer(), 1)
 		it := v.MapRange()
 		for it.Next() {
 			collect(it.Key(), set, d+1)
@@ -494,6 +512,8 @@ var (
 	ntasks []*ntask
 	ncur   *ntask
 	spos   int
+
+	fallbackSwitches int
 )
 
 func scheduled() bool { load(); return len(vec.Sched) > 0 }
@@ -562,6 +582,11 @@ func SchedPoint(kind string) {
 		return
 	}
 	next := nextSched()
+	if next < 0 && kind == "blocked" && ncur.id != 0 && !ntasks[0].done {
+		// beyond the recorded schedule and unable to proceed: give control back to the main task
+		switchTo(ntasks[0])
+		return
+	}
 	if next < 0 || next == ncur.id || next >= len(ntasks) || ntasks[next].done {
 		return
 	}
@@ -592,7 +617,23 @@ func Quiesce() {
 	for othersAlive() {
 		next := nextSched()
 		if next < 0 {
-			break
+			// the recorded schedule is used up although tasks are still alive (the symbolic run ended here, e.g. at
+			// a failed assertion of another task): let the remaining tasks run on in task order, so that "not
+			// completed" is only ever observed when a task really cannot finish
+			fallbackSwitches++
+			if fallbackSwitches > 2000 {
+				break // the remaining tasks are blocked for good
+			}
+			for i := range ntasks {
+				t := ntasks[(i+fallbackSwitches)%len(ntasks)]
+				if t != ncur && !t.done {
+					next = t.id
+					break
+				}
+			}
+			if next < 0 {
+				break
+			}
 		}
 		if next != ncur.id && next < len(ntasks) && !ntasks[next].done {
 			switchTo(ntasks[next])
